@@ -170,6 +170,17 @@ def replay(rec: Dict[str, Any]) -> List[Tuple[str, Dict[str, Any], str]]:
                 elif any(mine & containers(o, set()) for _, o in results if o is not None):
                     bad.append("results-share-containers")
             results.append((h["doc"], out))
+            if not bad and exp.get("t") != "error" and out is not None:
+                # the same document given as JSON text, twice: equal results, independent of one another and of the first result
+                try:
+                    t1 = patch.apply(json.dumps(untag(h["doc"])))
+                    if isinstance(t1, (list, dict)):
+                        (t1.append if isinstance(t1, list) else (lambda x: t1.__setitem__("edited-by-caller", x)))("edited-by-caller")
+                    t2 = patch.apply(json.dumps(untag(h["doc"])))
+                    if canon(tag(t2)) != canon(exp):
+                        bad.append("apply-to-json-text-wrong-result-on-reuse")
+                except BaseException as e:  # noqa: BLE001
+                    bad.append(f"apply-to-json-text-raised-{exc_family(e)}")
     if not bad:
         return []
     ops = "+".join(d["op"] for d in dicts)
